@@ -131,6 +131,21 @@ CHECKS = {
         note="Trusted: z3; symx; BytesIO model and cstruct generated readers; re/strptime run natively on the concrete table strings; "
         "version strings parsed independently by the harness. A zero export TimeDateStamp counts as absent (stated interpretation).",
         ref="§4 C18"),
+    "C08": dict(
+        text="Every entry point named by the property (BeaconConfig.from_bytes/from_file incl. all-keys mode, BeaconConfig(block), "
+        "XorEncodedFile.from_file, the six pe.find_* helpers, both Guardrails scanners, the ArtifactKit scanner, parse_raw_http) is run "
+        "on (a) every input of 0..8/12 fully symbolic bytes, over a BytesIO model and an OS-file model, (b) PE scaffolds with one or two "
+        "header fields fully symbolic (e_lfanew, Machine, NumberOfSections, SizeOfOptionalHeader, SizeOfHeaders, section VA/size/raw "
+        "pointer/raw size, export RVA) and truncated at every structure boundary +-1, settings blocks with a symbolic record, the "
+        "over-long User-Agent, Guardrails markers at the start of short files with symbolic guard settings and patch sizes scaled to "
+        "24/16 bytes, XorEncoded stages with a symbolic size field and truncations: on every path the call returns or raises ValueError, "
+        "and no loop exceeds an unwinding bound derived from the input size (an exhausted bound is confirmed by a native replay under a "
+        "20 s wall-clock bound before it is reported).",
+        note="Trusted: z3; symx; file models (BytesIO vs OS file on negative seeks); cstruct generated readers (concrete static structures "
+        "parsed by the real cstruct); int(text) / UTF-8 decoding / urlsplit of out-of-model text and the n-gram key-candidate heuristic "
+        "are contract stubs ('a value or ValueError' / an arbitrary candidate list). The pretty-printing views of a type-confused record "
+        "are not entry points of the property (observation in DESIGN.md).",
+        ref="§4 C08"),
 }
 
 NA = {}
